@@ -22,7 +22,9 @@ def main():
             'engine': 'pyv',
             'level_claimed': {'category': p.level, 'text': p.level_text, 'design_ref': 'DESIGN.md section 6, ' + pid},
             'level_note': p.level_note,
-            'technique': p.technique,
+            'technique': p.technique + (('; thorough tier: plus a coverage-guided cargo-fuzz / libFuzzer campaign on fuzzing/fuzz/fuzz_targets/%s.rs, '
+                                         'whose semantic oracle runs inside the target (VERIF_FUZZ_SECONDS, default 300 s)') % p.fuzz_target
+                                        if getattr(p, 'fuzz_target', None) else ''),
         })
     hooks = subprocess.run(['git', '-C', '/repo', 'log', '--format=%h %s'], capture_output=True, text=True).stdout.splitlines()
     hook_commits = [l.split()[0] for l in hooks if 'verif hook' in l]
